@@ -38,7 +38,7 @@ type entryIn struct {
 	Mode    uint32 `json:"mode"`    // permission bits (file, dir)
 	Content string `json:"content"` // file: probe | text | script | wasm
 	Target  string `json:"target"`  // symlink: probe (executable probe) | noexec (probe, mode 0644) | dir | missing | text
-	Behave  string `json:"behave"`  // what a probe started under this name does: ok|exit|hang|cfgfail|syncfail|die
+	Behave  string `json:"behave"`  // what a probe started under this name does: ok|exit|hang|cfgfail|syncfail|die|idleclose|idleexit
 }
 
 type dropinIn struct {
@@ -52,6 +52,7 @@ type dirIn struct {
 	Stream     string     `json:"stream"`
 	Entries    []entryIn  `json:"entries"`
 	Dropins    []dropinIn `json:"dropins"`
+	Plan       []string   `json:"plan"`       // after Start: "r" = relay a CreateContainer, "idle" = let idle-acting probes act; then Stop
 	NoDir      bool       `json:"nodir"`      // the plugin directory does not exist
 	NoDropins  bool       `json:"nodropins"`  // the drop-in directory does not exist
 	Root       bool       `json:"root"`       // the harness runs as root (any x bit suffices to exec)
@@ -81,8 +82,8 @@ type dirObs struct {
 	Noise  []string   `json:"noise"` // other events logged by probes (stub-error, run-error, …)
 	Probes []probeObs `json:"probes"`
 	Stray  int        `json:"stray"` // live processes running a file of this case's plugin dir after Stop
-	R1     string     `json:"r1"`    // "" or error text class of the first / second request
-	R2     string     `json:"r2"`
+	R1     string     `json:"r1"`    // "" or "error": did any relayed request fail
+	R2     string     `json:"r2"`    // unused (kept for old replays)
 	WallMs int64      `json:"wall_ms"`
 }
 
@@ -91,7 +92,7 @@ func behaveOf(name string) string {
 	if len(base) >= 3 && base[2] == '-' {
 		base = base[3:]
 	}
-	for _, m := range []string{"ok", "exit", "hang", "cfgfail", "syncfail", "die"} {
+	for _, m := range []string{"ok", "exit", "hang", "cfgfail", "syncfail", "die", "idleclose", "idleexit"} {
 		if strings.HasPrefix(base, m) {
 			return m
 		}
@@ -452,24 +453,81 @@ func runCase(in *dirIn, base string, ms *masters) (dirObs, error) {
 		}
 		return m
 	}
-	if serr == nil {
-		o.R1 = req("r1")
-		// let the probes that die after their first request finish dying
-		deadline := time.Now().Add(5 * time.Second)
-		for time.Now().Before(deadline) {
-			pending := false
-			for f, sr := range readStarts() {
-				if behaveOf(f) == "die" && procState(sr.Pid) == "alive" {
-					pending = true
+	readLog := func() []logLine {
+		var ls []logLine
+		if f, err := os.Open(filepath.Join(rdir, "log")); err == nil {
+			sc := bufio.NewScanner(f)
+			for sc.Scan() {
+				var l logLine
+				if json.Unmarshal(sc.Bytes(), &l) == nil {
+					ls = append(ls, l)
 				}
 			}
-			if !pending {
-				break
-			}
-			time.Sleep(5 * time.Millisecond)
+			f.Close()
 		}
-		time.Sleep(20 * time.Millisecond) // the runtime's close notification for the dead connection
-		o.R2 = req("r2")
+		return ls
+	}
+	if serr == nil {
+		nreq, idled := 0, false
+		for _, st := range in.Plan {
+			switch st {
+			case "r":
+				nreq++
+				if req(fmt.Sprintf("r%d", nreq)) != "" {
+					o.R1 = "error"
+				}
+				// let the probes that die after their first request finish dying
+				deadline := time.Now().Add(5 * time.Second)
+				for time.Now().Before(deadline) {
+					pending := false
+					for f, sr := range readStarts() {
+						if behaveOf(f) == "die" && procState(sr.Pid) == "alive" {
+							pending = true
+						}
+					}
+					if !pending {
+						break
+					}
+					time.Sleep(5 * time.Millisecond)
+				}
+				time.Sleep(20 * time.Millisecond) // the runtime's close notification for the dead connection
+			case "idle":
+				if idled {
+					continue
+				}
+				idled = true
+				// the runtime is idle now: tell the probes that close / exit on their own to do so, wait
+				// until each has, then give the runtime time to notice the closed connections
+				os.WriteFile(filepath.Join(rdir, "idle"), nil, 0o644)
+				deadline := time.Now().Add(10 * time.Second)
+				for time.Now().Before(deadline) {
+					done := map[string]bool{}
+					for _, l := range readLog() {
+						if l.Ev == "idle-closed" || l.Ev == "idle-exit" {
+							done[l.Who] = true
+						}
+					}
+					pending := false
+					for f, sr := range readStarts() {
+						switch behaveOf(f) {
+						case "idleclose":
+							if !done[f] && procState(sr.Pid) == "alive" {
+								pending = true
+							}
+						case "idleexit":
+							if procState(sr.Pid) == "alive" {
+								pending = true
+							}
+						}
+					}
+					if !pending {
+						break
+					}
+					time.Sleep(5 * time.Millisecond)
+				}
+				time.Sleep(150 * time.Millisecond)
+			}
+		}
 	}
 	r.Stop()
 	starts := readStarts()
@@ -518,6 +576,14 @@ func runCase(in *dirIn, base string, ms *masters) (dirObs, error) {
 			}
 		}
 		o.Probes = append(o.Probes, p)
+	}
+	// whatever the runtime left behind has been recorded; do not leave it behind ourselves
+	for _, sr := range starts {
+		if st := procState(sr.Pid); st == "alive" || st == "zombie" {
+			syscall.Kill(sr.Pid, syscall.SIGKILL)
+			var ws syscall.WaitStatus
+			syscall.Wait4(sr.Pid, &ws, 0, nil)
+		}
 	}
 	sort.Slice(o.Probes, func(i, j int) bool { return o.Probes[i].File < o.Probes[j].File })
 	if f, err := os.Open(filepath.Join(rdir, "log")); err == nil {
@@ -628,6 +694,9 @@ func Run(o *hx.Opts, w *lineio.Writer) error {
 	root := os.Geteuid() == 0
 	for _, in := range inputs {
 		in.Root = root
+		if in.Plan == nil {
+			in.Plan = []string{"r", "r"} // replays recorded before plans existed
+		}
 		in.RegTimeout = int(regTimeout / time.Millisecond)
 		for i := range in.Entries {
 			in.Entries[i].Behave = behaveOf(in.Entries[i].Name)
